@@ -946,6 +946,10 @@ func ruleRefKey(c *Ctx) {
 			}
 			return true
 		})
+		// ... or in a function or method the generic map is handed to
+		for k := range c.schemaDecoderEvents().delConst {
+			deleted[k] = true
+		}
 		for _, k := range []string{"$ref", "$schema"} {
 			c.ob(rule, "Schema.UnmarshalJSON:delete("+k+")", u.Pos(), deleted[k], "hand-coded member is not removed from the generic map, so it would be re-emitted a second time through ExtraProps")
 		}
